@@ -8,6 +8,7 @@ import (
 	"math/rand"
 	"net/url"
 	"os"
+	"servitor/client"
 	"servitor/jtp"
 	"strings"
 	"time"
@@ -86,9 +87,23 @@ func installWorld(op Op) (map[string]route, string) {
 		fault := S(Op(rm), "fault")
 		authority := s.hosts[h]
 		routes[authority+" "+path] = route{resp: resp, fault: fault}
-		full := "https://" + authority + path
+		full := "https://" + authority + strings.TrimSuffix(path, "?*")
 		noteURL(full)
-		world = append(world, map[string]any{"url": full, "resp": resp, "fault": fault})
+		/* what the client can receive at most under the fault */
+		effective, mfault := resp, fault
+		if strings.HasPrefix(fault, "cut:") {
+			var k int
+			fmt.Sscanf(strings.Split(fault, ":")[1], "%d", &k)
+			if k < len(resp) {
+				effective = resp[:k]
+			}
+			mfault = ""
+		} else if fault == "stall" || strings.HasPrefix(fault, "trickle:") {
+			/* nothing complete arrives before the deadline */
+			effective, mfault = "", ""
+		}
+		resp = effective
+		world = append(world, map[string]any{"url": full, "key": authority + " " + path, "resp": effective, "fault": mfault, "lossy": strings.HasSuffix(fault, ":reset")})
 		base, _ := url.Parse(full)
 		for _, line := range strings.SplitAfter(resp, "\n") {
 			if v, ok := jtp.VerifLocationValue(line); ok {
@@ -162,10 +177,15 @@ func init() {
 			u, err := url.Parse(target)
 			if err != nil {
 				results = append(results, map[string]any{"badurl": true})
+				if tbl, ok := op["urltable"].(map[string]any); ok {
+					tbl[target] = nil
+				}
+				timings = append(timings, 0)
 				continue
 			}
 			if tbl, ok := op["urltable"].(map[string]any); ok {
 				tbl[target] = urlRecord(u)
+				tbl[u.String()] = urlRecord(u)
 			}
 			start := time.Now()
 			doc, src, gerr := jtp.Get(u, S(op, "accept"), toStrings(L(op, "tolerated")), uint(I(op, "budget")))
@@ -193,6 +213,30 @@ func init() {
 		return results
 	}
 	groups["C03"] = group{gen: genC03}
+	groups["C04"] = group{gen: genC04}
+	groups["C05"] = group{gen: genC05}
+	execs["webfinger"] = func(op Op) any {
+		s := startSimulator()
+		_, opid := installWorld(op)
+		jtp.VerifCachePurge()
+		handle := substitute(S(op, "handle"), s.hosts, opid)
+		op["handle_sub"] = handle
+		/* oracle: the query encoding of the real url.Values */
+		if parts := strings.SplitN(handle, "@", 2); len(parts) == 2 {
+			op["query"] = (url.Values{"resource": []string{"acct:" + parts[0] + "@" + parts[1]}}).Encode()
+			op["domain"] = parts[1]
+		}
+		link, err := client.ResolveWebfinger(handle)
+		log := s.takeLog()
+		op["canaryhits"] = s.canaryHits()
+		res := map[string]any{"requests": logSummary(log)}
+		if err != nil {
+			res["err"] = true
+		} else {
+			res["ok"] = link
+		}
+		return res
+	}
 }
 
 var statusLines = []string{"HTTP/1.0 200 OK", "HTTP/1.1 200 OK", "HTTP/1.0 201 Created", "HTTP/1.0 202 Accepted", "HTTP/1.0 203 Non-Authoritative",
@@ -380,5 +424,110 @@ func genC03(r *rand.Rand, n int, emit func(Op)) {
 			}
 		}
 		emit(Op{"op": "fetchseq", "routes": routes, "seq": seq, "accept": accept, "tolerated": tolerated, "budget": 20})
+	}
+}
+
+func genC04(r *rand.Rand, n int, emit func(Op)) {
+	accept := "application/activity+json,application/ld+json; profile=\"https://www.w3.org/ns/activitystreams\""
+	tolerated := []any{"application/activity+json", "application/ld+json", "application/json"}
+	good := "HTTP/1.0 200 OK\r\nContent-Type: application/activity+json\r\n\r\n{\"stamp\":\"x\"}"
+	hostile := []string{"", "?a b", "?a=b&c=d", "%0d%0aX-Evil:%201", "%0D%0A%0D%0AGET%20/evil%20HTTP/1.0", "?q=%0d%0aHost:%20evil", "/../../etc", "#frag", "?x=\u00e9", "%00", ";p=1", "?a=1#f\r\nX: y", " HTTP/1.0", "?\tx", "%20HTTP/1.1"}
+	for i := 0; i < n; i++ {
+		if r.Intn(5) == 0 {
+			jrd := "HTTP/1.0 200 OK\r\nContent-Type: application/jrd+json\r\n\r\n{\"links\":[{\"rel\":\"self\",\"type\":\"application/activity+json\",\"href\":\"https://{H1}/{OP}/actor\"}]}"
+			if r.Intn(4) == 0 {
+				jrd = pick(r, []string{"HTTP/1.0 200 OK\r\nContent-Type: application/json\r\n\r\n{\"links\":[{\"rel\":\"other\"},5]}", "HTTP/1.0 404 x\r\n\r\n", "HTTP/1.0 200 OK\r\nContent-Type: application/jrd+json\r\n\r\n{\"links\":{\"rel\":\"self\",\"type\":\"application/ld+json\",\"href\":\"h\"}}"})
+			}
+			handle := pick(r, []string{"alice", "a b", "a%40b", "a\r\nX: 1", "", "a&resource=evil", "a#x", "é"}) + "@" +
+				pick(r, []string{"{H0}", "{H0}", "{H0}", "{H0}\r\nX-Evil: 1", "{H0}/path", "{H0}#f", "{H0}?x=1", "{CANARY}", "evil.invalid", "{H0} ", "user:pw@{H0}", ""})
+			if r.Intn(10) == 0 {
+				handle = pick(r, []string{"nodomain", "@", "a@b@{H0}"})
+			}
+			emit(Op{"op": "webfinger", "routes": []any{map[string]any{"h": 0, "path": "/.well-known/webfinger?*", "resp": jrd, "fault": ""}}, "handle": handle, "accept": "application/jrd+json"})
+			continue
+		}
+		routes := []any{map[string]any{"h": 0, "path": "/{OP}/d0", "resp": good, "fault": ""}}
+		seq := []any{}
+		for k := 0; k < 1+r.Intn(4); k++ {
+			var u string
+			switch weighted(r, 8, 2, 2, 1, 1, 1, 1) {
+			case 0:
+				sfx := pick(r, hostile)
+				routes = append(routes, map[string]any{"h": 0, "path": "/{OP}/h" + fmt.Sprint(k) + "?*", "resp": good, "fault": ""})
+				u = "https://{H0}/{OP}/h" + fmt.Sprint(k) + sfx
+			case 1:
+				u = pick(r, []string{"https://user:secret@{H0}/{OP}/d0", "https://token@{H0}/{OP}/d0", "HTTPS://{H0}/{OP}/d0"})
+			case 2:
+				u = pick(r, []string{"http://{CANARY}/{OP}/plain", "http://{H0}/{OP}/d0", "ftp://{H0}/x", "//{H0}/{OP}/d0", "{H0}/{OP}/d0", "gopher://{CANARY}/"})
+			case 3:
+				u = "https://{CANARY}/{OP}/tls-to-plaintext-port"
+			case 4:
+				u = "https://{H0}\r\nX: y/{OP}/d0"
+			case 5:
+				/* redirect to plaintext: must not be followed */
+				routes = append(routes, map[string]any{"h": 1, "path": "/{OP}/toplain", "resp": "HTTP/1.0 302 Found\r\nLocation: http://{CANARY}/{OP}/leak\r\n\r\n", "fault": ""})
+				u = "https://{H1}/{OP}/toplain"
+			case 6:
+				routes = append(routes, map[string]any{"h": 1, "path": "/{OP}/inj", "resp": "HTTP/1.0 302 Found\r\nLocation: https://{H0}/{OP}/d0%0d%0aX-Evil: 1\r\n\r\n", "fault": ""})
+				u = "https://{H1}/{OP}/inj"
+			}
+			seq = append(seq, u)
+		}
+		emit(Op{"op": "fetchseq", "routes": routes, "seq": seq, "accept": accept, "tolerated": tolerated, "budget": 20})
+	}
+}
+
+func genC05(r *rand.Rand, n int, emit func(Op)) {
+	accept := "application/activity+json"
+	tolerated := []any{"application/activity+json", "application/ld+json", "application/json"}
+	for i := 0; i < n; i++ {
+		body := "{\"stamp\":\"doc\",\"type\":\"Note\",\"content\":\"" + strings.Repeat("x", r.Intn(40)) + "\",\"n\":[1,{\"a\":\"}\\\"\"}]}"
+		if r.Intn(6) == 0 {
+			body += pick(r, []string{"\n", " ", "trailing"})
+		}
+		resp := "HTTP/1.0 200 OK\r\n" + pick(r, []string{"", "Server: s\r\n"}) + "Content-Type: application/activity+json\r\n\r\n" + body
+		hops := r.Intn(3)
+		faultAt := r.Intn(hops + 1) // which hop carries the fault (0 = the document)
+		routes := []any{}
+		mkFault := func(text string) string {
+			switch weighted(r, 10, 2, 1, 1) {
+			case 0:
+				k := r.Intn(len(text) + 1)
+				if r.Intn(3) == 0 {
+					/* structural boundaries */
+					k = pick(r, []int{0, 1, len("HTTP/1.0 200 OK\r"), len("HTTP/1.0 200 OK\r\n"), strings.Index(text, "\r\n\r\n") + 2, strings.Index(text, "\r\n\r\n") + 3, strings.Index(text, "\r\n\r\n") + 4, len(text) - 1, len(text)})
+					if k < 0 {
+						k = 0
+					}
+				}
+				return fmt.Sprintf("cut:%d:%s", k, pick(r, []string{"eof", "eof", "reset", "stall"}))
+			case 1:
+				return "stall"
+			case 2:
+				return "trickle:100"
+			}
+			return ""
+		}
+		fault := ""
+		if faultAt == 0 {
+			fault = mkFault(resp)
+		}
+		routes = append(routes, map[string]any{"h": 0, "path": "/{OP}/d0", "resp": resp, "fault": fault})
+		prev := "https://{H0}/{OP}/d0"
+		for k := 1; k <= hops; k++ {
+			rr := "HTTP/1.0 302 Found\r\nLocation: " + prev + "\r\nX-Pad: " + strings.Repeat("p", 120) + "\r\n\r\n"
+			f := ""
+			if faultAt == k {
+				f = mkFault(rr)
+			}
+			h := r.Intn(simHosts)
+			routes = append(routes, map[string]any{"h": h, "path": fmt.Sprintf("/{OP}/r%d", k), "resp": rr, "fault": f})
+			prev = fmt.Sprintf("https://{H%d}/{OP}/r%d", h, k)
+		}
+		op := Op{"op": "fetchseq", "routes": routes, "seq": []any{prev}, "accept": accept, "tolerated": tolerated, "budget": 20, "timeout_s": 1}
+		if r.Intn(12) == 0 {
+			op["hostfaults"] = []any{map[string]any{"h": 0, "fault": "nohandshake"}}
+		}
+		emit(op)
 	}
 }
